@@ -184,7 +184,9 @@ def one_round(rng, nthreads, nreq):
                             node = node.target
                         name = node.name
                 elif route == "leaf" or route == "matx":
-                    name = R.LeafRelation(e, frozenset({a}), iteration.RowSequence([]), name="", name_prefix=prefix).name
+                    # (every third one carries query parameters, which must not change how it is named)
+                    extra = {"parameters": {"k": len(results[t])}} if len(results[t]) % 3 == 0 else {}
+                    name = R.LeafRelation(e, frozenset({a}), iteration.RowSequence([]), name="", name_prefix=prefix, **extra).name
                 else:
                     m = bases[ei].materialized(name_prefix=prefix)
                     node = m
